@@ -1,8 +1,12 @@
-"""C14: connection-level check (see DESIGN section 6 / C14): scenario families on the real endpoints, recorded traces
-validated against RSocket.tla by TLC; design-level model checking of the same monitors in RSocketMC.tla."""
-from . import conn, families, mc
+"""C14: (1) Lease.tla - the requester side of leasing under a clock - model-checked exhaustively and its complete state graphs
+(unbounded and bounded request queue) replayed transition by transition on a real RSocketClient(honor_lease=True) under a
+virtual clock (vf/props/leasemodel.py); (2) connection level (see DESIGN section 6 / C14): scenario families on the real
+endpoints incl. the responder side (LEASE frames announce exactly what the publisher published), recorded traces validated
+against RSocket.tla by TLC."""
+from . import conn, families, mc, leasemodel
 
 
 def run(v):
+    leasemodel.check(v)
     mc.run_for(v, 'C14')
     conn.check(v, 'C14', families.FAMILIES['C14'])
